@@ -101,6 +101,20 @@ def gen(prop, stream, tier, avoid):
             if op["to"] == "file" and fl.chance(knobs["fault_p"]):
                 op["faults"].append({"kind": fl.pick(["open_fails", "write_fails", "close_fails"]), "nth": 1, "errno": fl.pick([5, 28])})
         ops.append(op)
+    if use_cont and nobj >= 3 and kn.chance(0.35):
+        # motif: a container that was tessellated on the pool gets more work for only some of its elements
+        # (new members / an edited member) and is tessellated on the pool again
+        np_ = kn.pick([2, 2, 4])
+        motif = [{"op": "cadd", "obj": 0}, {"op": "cadd", "obj": 1},
+                 {"op": "ctess", "obj": 0, "num_procs": np_, "delta": kn.chance(0.7), "force": False}]
+        if kn.chance(0.5):
+            motif += [{"op": "cadd", "obj": 2}] + ([{"op": "cadd", "obj": 3}] if nobj >= 4 else [{"op": "edit", "obj": 1, "seed": kn.randrange(1 << 30)}])
+        else:
+            motif += [{"op": "cadd", "obj": 2}, {"op": "edit", "obj": kn.pick([1, 2]), "seed": kn.randrange(1 << 30)},
+                      {"op": "edit", "obj": 2, "seed": kn.randrange(1 << 30)}]
+        motif += [{"op": "ctess", "obj": 0, "num_procs": np_, "delta": kn.chance(0.7), "force": False}, {"op": "cread", "obj": 0}]
+        at = kn.randint(0, len(ops))
+        ops = ops[:at] + motif + ops[at:]
     knobs["pool_faults"] = pool_faults
     return {"knobs": knobs, "objects": objs, "ops": ops}
 
